@@ -746,6 +746,10 @@ def check(tier):
     # the reader hands every written property of every line to the tree (shipped registries + the test registry)
     from ..reg import ReaderModel, Registry, registry_files
     model = ReaderModel()
+    if model.skip_problem:
+        rep.fail('DT.layout', FILE, '_parse', model.skip_problem[1][:100], model.skip_problem[0], model.skip_problem[2])
+    else:
+        rep.ok('DT.layout', '%s _parse' % FILE, 'comments are lines starting with # in the first column; blank lines are skipped')
     files = registry_files()
     extra = os.path.join(REPO, 'tests', 'numdb-test.dat')
     if os.path.exists(extra):
